@@ -317,7 +317,32 @@ func paramMayBeWritten(g *ssa.Function, idx int, depth int) bool {
 					// append(p[:], …): p's array has len == cap, a new array is allocated; as later source operands p is only read
 					if len(cc.Args) > 0 && derived[cc.Args[0]] {
 						if sl, isSl := cc.Args[0].(*ssa.Slice); !isSl || sl.High != nil || sl.Max != nil {
-							written = true
+							// append(p, …) with p the slice parameter itself: in a helper the reference tree does
+							// not have, whose every call site passes a full slice a[:] of an array (len == cap),
+							// the append allocates as well
+							full := cc.Args[0] == ssa.Value(g.Params[idx]) && gNewFuncs[g] && len(gCallSitesOf[g]) > 0
+							if full {
+								for _, cs := range gCallSitesOf[g] {
+									args := cs.Common().Args
+									if cs.Common().StaticCallee() != g || idx >= len(args) {
+										full = false
+										break
+									}
+									asl, ok := args[idx].(*ssa.Slice)
+									if !ok || asl.Low != nil || asl.High != nil || asl.Max != nil {
+										full = false
+										break
+									}
+									if pt, isP := asl.X.Type().Underlying().(*types.Pointer); !isP {
+										full = false
+									} else if _, isArr := pt.Elem().Underlying().(*types.Array); !isArr {
+										full = false
+									}
+								}
+							}
+							if !full {
+								written = true
+							}
 						}
 					}
 				case "len", "cap":
